@@ -134,6 +134,7 @@ package keeper
 //@ func (Keeper).PauseRequestContext
 //@ preserves [C01,C02,C16,C11] pending_requests_stay_well_formed: actInv(raw)
 //@ props C09 C05
+//@ preserves [C10] never_more_batches_than_the_largest_total: cadInv(raw, ghostMaxTot)
 //@ preserves [C11] no_event_in_the_past: futInv(raw, ctxHeight(ctx))
 //@ preserves [C12,C16,C08] open_batches_count_their_pending_requests: cntInv(raw)
 //@ preserves [C11] queues_stay_well_formed: schedInv(raw)
@@ -146,6 +147,11 @@ package keeper
 //@ func (Keeper).StartRequestContext
 //@ preserves [C01,C02,C16,C11] pending_requests_stay_well_formed: actInv(raw)
 //@ props C09 C05 C10 C11 C16 C08 C04 C02 C01
+//@ requires [C10] never_more_batches_than_the_largest_total: cadInv(raw, ghostMaxTot)
+//@ ensures [C10] never_more_batches_than_the_largest_total_kept: err == NoErr ==> (let c := ctxOf(old(raw), requestContextID) in
+//@      (hasExp(old(raw), requestContextID) || hasNew(old(raw), requestContextID) || (c.Repeated ? c.BatchCounter < effTotal(c) : c.BatchCounter == 0)) ==> cadInv(raw, ghostMaxTot))
+//@ ensures [C10] never_more_batches_than_the_largest_total_kept_when_restarted_after_the_last_batch: err == NoErr ==> (let c := ctxOf(old(raw), requestContextID) in
+//@      !(hasExp(old(raw), requestContextID) || hasNew(old(raw), requestContextID) || (c.Repeated ? c.BatchCounter < effTotal(c) : c.BatchCounter == 0)) ==> cadInv(raw, ghostMaxTot))
 //@ preserves [C11] no_event_in_the_past: futInv(raw, ctxHeight(ctx))
 //@ preserves [C12,C16,C08] open_batches_count_their_pending_requests: cntInv(raw)
 //@ preserves [C11] queues_stay_well_formed: schedInv(raw)
@@ -161,6 +167,7 @@ package keeper
 //@ func (Keeper).KillRequestContext
 //@ preserves [C01,C02,C16,C11] pending_requests_stay_well_formed: actInv(raw)
 //@ props C09 C05
+//@ preserves [C10] never_more_batches_than_the_largest_total: cadInv(raw, ghostMaxTot)
 //@ preserves [C11] no_event_in_the_past: futInv(raw, ctxHeight(ctx))
 //@ preserves [C12,C16,C08] open_batches_count_their_pending_requests: cntInv(raw)
 //@ preserves [C11] queues_stay_well_formed: schedInv(raw)
@@ -173,6 +180,8 @@ package keeper
 //@ func (Keeper).UpdateRequestContext
 //@ preserves [C01,C02,C16,C11] pending_requests_stay_well_formed: actInv(raw)
 //@ props C09 C05 C10
+//@ requires [C10] never_more_batches_than_the_largest_total: cadInv(raw, ghostMaxTot)
+//@ ensures [C10] never_more_batches_than_the_largest_total_kept: err == NoErr ==> cadInv(raw, maxNext(ghostMaxTot, raw))
 //@ preserves [C11] no_event_in_the_past: futInv(raw, ctxHeight(ctx))
 //@ preserves [C12,C16,C08] open_batches_count_their_pending_requests: cntInv(raw)
 //@ preserves [C11] queues_stay_well_formed: schedInv(raw)
@@ -300,6 +309,7 @@ package keeper
 
 //@ func (Keeper).AddResponse
 //@ props C02 C08 C05 C12 C04 C07 C20
+//@ preserves [C10] never_more_batches_than_the_largest_total: cadInv(raw, ghostMaxTot)
 //@ preserves [C11] no_event_in_the_past: futInv(raw, ctxHeight(ctx))
 //@ preserves [C11] queues_stay_well_formed: schedInv(raw)
 //@ preserves [C12,C16,C08] open_batches_count_their_pending_requests: cntInv(raw)
@@ -409,6 +419,8 @@ package keeper
 
 //@ func (Keeper).CreateRequestContext
 //@ props C10 C09 C18 C15 C11
+//@ requires [C10] never_more_batches_than_the_largest_total: cadInv(raw, ghostMaxTot)
+//@ ensures [C10] never_more_batches_than_the_largest_total_kept: err == NoErr ==> cadInv(raw, maxNext(ghostMaxTot, raw))
 //@ preserves [C11] no_event_in_the_past: futInv(raw, ctxHeight(ctx))
 //@ preserves [C12,C16,C08] open_batches_count_their_pending_requests: cntInv(raw)
 //@ preserves [C11] queues_stay_well_formed: schedInv(raw)
@@ -416,7 +428,7 @@ package keeper
 //@ modifies raw
 //@ requires in_range: 0 <= repeatedFrequency && repeatedFrequency <= 18446744073709551615 && 0 <= responseThreshold && responseThreshold <= 4294967295 && 0 <= state && state <= 2
 //@ requires a4_fresh_id: !ctxFound(raw, mkCtxID(ctxTxHash(ctx), ctxMsgIndex(ctx)))
-//@ requires a2_validated: len(moduleName) == 0 ==> timeout > 0 && (repeated ==> repeatedFrequency == 0 || repeatedFrequency >= timeout)
+//@ requires a2_validated: len(moduleName) == 0 ==> timeout > 0 && (repeated ==> (repeatedFrequency == 0 || repeatedFrequency >= timeout) && (repeatedTotal == -1 || repeatedTotal >= 1))
 //@ requires a12_position_index_fits: len(providers) <= 32767
 //@ requires a3_consumer_ordinary: ordinary(consumer)
 //@ ensures [C18] id_from_tx_hash_and_message_index: err == NoErr ==> result0 == mkCtxID(ctxTxHash(ctx), ctxMsgIndex(ctx))
@@ -621,3 +633,19 @@ package keeper
 //@ props C20 C15 C14 C07
 //@ ensures [C20,C15] exactly_one_price_coin_of_nonnegative_amount: err == NoErr ==> onePriceCoin(p)
 //@ assumes deterministic_function_of_the_text: err == parsePricingErr(pricing) && (err == NoErr ==> p == parsePricing(pricing))
+
+// ---------------------------------------------------------------- module services (dead in this repository: nothing registers one; reachable through RegisterModuleService)
+// Called by handleMsgCallService right after CreateRequestContext has stored the one-shot context RUNNING and queued its first batch for this block.
+//@ func (Keeper).RequestModuleService
+//@ props C10 C01 C02
+//@ modifies raw, bal, supply, cblog
+//@ preserves wf: WF(raw)
+//@ preserves [C03] deposits_in_custody: depInv(raw, bal)
+//@ preserves [C16] pending_requests_stay_well_formed: actInv(raw)
+//@ preserves [C12] open_batches_count_their_pending_requests: cntInv(raw)
+//@ requires [C11] the_first_batch_is_queued: futInv(raw, ctxHeight(ctx)) && cadInv(raw, ghostMaxTot) && schedInv(raw)
+//@ ensures [C11,C10] invariants_after_the_immediate_batch: err == NoErr ==> futInv(raw, ctxHeight(ctx)) && cadInv(raw, ghostMaxTot) && schedInv(raw)
+//@ requires just_created: ctxFound(raw, reqContextID) && rng_RequestContext(ctxOf(raw, reqContextID)) && ctxOf(raw, reqContextID).BatchCounter == 0 && !ctxOf(raw, reqContextID).Repeated &&
+//@      ctxOf(raw, reqContextID).BatchState == BATCHCOMPLETED && len(ctxOf(raw, reqContextID).Providers) == 1 && ordinary(ctxOf(raw, reqContextID).Consumer) &&
+//@      raw[KNewQ(ctxHeight(ctx), reqContextID)] == idVal(reqContextID) && raw[KNewH(reqContextID)] == hVal(ctxHeight(ctx)) && raw[KExpH(reqContextID)] == bnil
+//@ ensures [C10,C01] the_immediate_batch_is_the_only_batch_of_this_one_shot_context: err == NoErr ==> raw[KNewQ(ctxHeight(ctx), reqContextID)] == bnil && raw[KNewH(reqContextID)] == bnil
